@@ -520,11 +520,11 @@ def reach_rejected_api(which: int) -> int:
 NAMES3 = [None, 'A', 'B']
 
 
-def isolation_check(n1, n2, order, explicit2, osn=('S1', 'S2'), csn=('S1', 'S2')):
+def isolation_check(n1, n2, order, explicit2, osn=('S1', 'S2'), csn=('S1', 'S2'), same_id=False):
     """Two logical files; a zone is added to each in set names n1, n2 (None/'A'/'B'); origins and zones are added in a
     symbolic interleaving.  Either the specification is refused, or every set yielded for file i holds only objects
     added through file i and every object's origin is an origin of its own file."""
-    df, (lf1, lf2) = new_file(2)
+    df, (lf1, lf2) = new_file(2, same_id)
     made = {}
 
     def o1():
@@ -547,6 +547,9 @@ def isolation_check(n1, n2, order, explicit2, osn=('S1', 'S2'), csn=('S1', 'S2')
             lf.add_frame('F', channels=(lf.add_channel('C', set_name=sn),), set_name=sn)
             lf.check_objects()
         recs = list(df.generator([[], []]))
+        for r in recs:
+            if set_kind(r) == 'FILE-HEADER':
+                r._make_body_bytes()       # a header without an origin reference is refused when it is encoded
     except REJECT:
         return 0
     # split the record stream by logical file
@@ -599,18 +602,18 @@ def reach_isolation(n1: int, n2: int, order: int, explicit2: bool) -> int:
     return isolation_check(n1, n2, order, explicit2)
 
 
-def ob_isolation_shared_origin(n1: int, n2: int, order: int, explicit2: bool, named_o: bool, shared_c: bool) -> int:
+def ob_isolation_shared_origin(n1: int, n2: int, order: int, explicit2: bool, named_o: bool, shared_c: bool, same_id: bool) -> int:
     """
     Both logical files put their origin into the SAME (default or named) ORIGIN set name - the registry hands both the
     same set object.  The library refuses such a specification when it is checked / generated; it must never emit
     one file's origin, header reference or objects inside the other (zone set names symbolic, channel / frame sets
-    per file or shared as well).
+    per file or shared as well; header identifiers different or equal - equal ones pass the FILE-ID check).
     pre: 0 <= n1 <= 2 and 0 <= n2 <= 2 and 0 <= order < 6 and order % SHARD_N == SHARD_I % 6
     post: _ == 0
     """
     osn = ('S', 'S') if named_o else (None, None)
     csn = (None, None) if shared_c else ('S1', 'S2')
-    return isolation_check(n1, n2, order, explicit2, osn, csn)
+    return isolation_check(n1, n2, order, explicit2, osn, csn, same_id)
 
 
 def kf_isolation_shared(n: int, order: int) -> int:
